@@ -37,6 +37,11 @@ def py_eval(e, act):
     if "list" in e:
         vs = [py_eval(x, act) for x in e["list"]]
         return ERR if any(v is ERR for v in vs) else vs
+    if "call" in e:
+        vs = [py_eval(x, act) for x in e["args"]]
+        if any(v is ERR for v in vs):
+            return ERR
+        return py_apply(e["call"], vs)
     out = {}
     for k, x in e["map"]:
         v = py_eval(x, act)
@@ -44,6 +49,29 @@ def py_eval(e, act):
             return ERR
         out[k] = v
     return out
+
+
+def _overlay(res, ov):
+    out = json.loads(json.dumps(res))
+    for k, v in ov.items():
+        if isinstance(v, dict) and isinstance(out.get(k), dict):
+            out[k] = _overlay(out[k], v)
+        else:
+            out[k] = json.loads(json.dumps(v))
+    return out
+
+
+def py_apply(f, vs):
+    """the custom functions the generators use, on plain values (fresh results, nothing shared)"""
+    if f == "flatten" and len(vs) == 1 and isinstance(vs[0], list) and all(isinstance(x, list) for x in vs[0]):
+        return [y for x in vs[0] for y in x]
+    if f == "overlay" and len(vs) == 2 and all(isinstance(v, dict) for v in vs):
+        return _overlay(vs[0], vs[1])
+    if f == "size" and len(vs) == 1 and isinstance(vs[0], (list, dict)):
+        return len(vs[0])
+    if f == "in" and len(vs) == 2 and isinstance(vs[0], str) and isinstance(vs[1], dict):
+        return vs[0] in vs[1]
+    return ERR
 
 
 def same(a, b):
@@ -446,7 +474,9 @@ def run(tier: str) -> int:
     # whose switchOn reads steps.*; Ok steps with falsy values that publish state
     for tag, g, nq, nt in (("shared-name-switch", gen_wf.gen_shared_name_switch_case, 30, 400),
                            ("forEach-switch-on-steps", gen_wf.gen_foreach_switch_steps_case, 30, 400),
-                           ("falsy-value-state", gen_wf.gen_falsy_state_case, 30, 400)):
+                           ("falsy-value-state", gen_wf.gen_falsy_state_case, 30, 400),
+                           ("shared-dependency-value", gen_wf.gen_alias_case, 40, 400),
+                           ("steps-as-a-whole", gen_wf.gen_whole_steps_case, 15, 150)):
         rt = rng("c01-" + tag)
         xs = [g(rt) for _ in range(nq if tier == "quick" else nt)]
         try:
